@@ -634,3 +634,224 @@ Proof.
                 start stop factor j take fuel [] (Forall_nil _) M Lf (St fuel) NF) as R.
   cbv zeta in R. rewrite Off in R. exact R.
 Qed.
+
+(* ---- closed form of the stall guard: a normal number times a factor > 1 grows strictly ---------- *)
+Local Open Scope R_scope.
+Notation fexp64 := (SpecFloat.fexp prec emax).
+Notation ulp64 := (ulp radix2 fexp64).
+Notation succ64 := (succ radix2 fexp64).
+Notation fmt64 := (generic_format radix2 fexp64).
+
+Lemma fmt_B2R : forall x : B, fmt64 (B2R x).
+Proof. intro x. apply generic_format_B2R. Qed.
+
+Lemma ulp_one : ulp64 1 = bpow radix2 (-52).
+Proof.
+  rewrite ulp_neq_0 by lra. unfold cexp. rewrite mag_1. reflexivity.
+Qed.
+
+Lemma ulp_normal : forall X, bpow radix2 (emin + prec - 1) <= X -> ulp64 X = bpow radix2 (mag radix2 X - prec).
+Proof.
+  intros X H. pose proof (bpow_gt_0 radix2 (emin + prec - 1)).
+  rewrite ulp_neq_0 by lra. unfold cexp. f_equal.
+  assert ((emin + prec <= mag radix2 X)%Z).
+  { apply mag_ge_bpow. rewrite Rabs_pos_eq by lra. exact H. }
+  unfold SpecFloat.fexp, SpecFloat.emin. lia.
+Qed.
+
+(* X normal, F > 1 both in the format: rnd (X*F) >= succ X > X *)
+Lemma rnd_mul_strict : forall X F, fmt64 X -> fmt64 F ->
+  bpow radix2 (emin + prec - 1) <= X -> 1 < F -> X < rnd (X * F).
+Proof.
+  intros X F FX FF HX HF.
+  pose proof (bpow_gt_0 radix2 (emin + prec - 1)) as P0.
+  assert (F1 : fmt64 1) by (rewrite <- B2R_B1; apply fmt_B2R).
+  assert (S1 : 1 + bpow radix2 (-52) <= F).
+  { rewrite <- ulp_one, <- succ_eq_pos by lra. apply succ_le_lt; auto.
+    apply (fexp_correct prec emax). exact Hprec. }
+  assert (U : ulp64 X <= X * bpow radix2 (-52)).
+  { rewrite (ulp_normal X HX).
+    replace (mag radix2 X - prec)%Z with ((mag radix2 X - 1) + (-52))%Z by (unfold prec; lia).
+    rewrite bpow_plus. apply Rmult_le_compat_r; [apply bpow_ge_0|].
+    pose proof (bpow_mag_le radix2 X) as M. rewrite Rabs_pos_eq in M by lra. apply M. lra. }
+  assert (SX : succ64 X <= X * F).
+  { rewrite succ_eq_pos by lra. nra. }
+  apply Rlt_le_trans with (succ64 X).
+  - apply succ_gt_id. lra.
+  - assert (R : rnd (succ64 X) = succ64 X).
+    { apply round_generic; [apply valid_rnd_round_mode|].
+      apply generic_format_succ; auto. apply (fexp_correct prec emax). exact Hprec. }
+    rewrite <- R. now apply rnd_le.
+Qed.
+
+Definition minnorm : PrimFloat.float := 0x1p-1022%float.     (* smallest normal number *)
+
+Lemma fin_minnorm : is_finite (Prim2B minnorm) = true.
+Proof. rewrite <- is_finite_equiv. reflexivity. Qed.
+
+Lemma B2R_minnorm : B2R (Prim2B minnorm) = bpow radix2 (emin + prec - 1).
+Proof.
+  unfold Prim2B. rewrite B2R_SF2B.
+  replace (Prim2SF minnorm) with (S754_finite false 4503599627370496 (-1074)) by (vm_compute; reflexivity).
+  unfold SF2R, F2R. cbn [Fnum Fexp cond_Zopp].
+  change (Z.pos 4503599627370496) with (radix2 ^ 52)%Z.
+  rewrite IZR_Zpower by lia. rewrite <- bpow_plus. reflexivity.
+Qed.
+
+(* x finite and normal, f > 1: x < x*f after rounding (or the product overflows to +inf) *)
+Lemma Bmult_strict_grow : forall x f : B, is_finite x = true ->
+  BLE (Prim2B minnorm) x -> Bltb B1 f = true -> Bltb x (Bmult mode_NE x f) = true.
+Proof.
+  intros x f Fx Hx Hf.
+  pose proof (BLE_real _ _ fin_minnorm Hx Fx) as HX. rewrite B2R_minnorm in HX.
+  pose proof (bpow_gt_0 radix2 (emin + prec - 1)) as P0.
+  assert (Sx : Bsign x = false) by (apply finite_sign_pos; auto; lra).
+  assert (Nx : notnan x) by now apply notnan_fin.
+  assert (LtInf : Bltb x (B754_infinity false) = true).
+  { rewrite Bltb_def. replace (Bleb x (B754_infinity false)) with true
+      by (symmetry; apply Bleb_BLE, BLE_inf_r, Nx).
+    destruct (Bleb (B754_infinity false) x) eqn:E; [|reflexivity].
+    apply Bleb_BLE in E. destruct x as [s|[|]| |s m e H]; simpl in *; try discriminate; tauto. }
+  destruct (Bltb_right _ _ fin_B1 Hf) as [Ff|Ef]; [|subst f].
+  - pose proof (Bltb_fin _ _ fin_B1 Ff Hf) as HF. rewrite B2R_B1 in HF.
+    assert (Sf : Bsign f = false) by (apply finite_sign_pos; auto; lra).
+    pose proof (Bmult_correct prec emax _ _ mode_NE x f) as C.
+    pose proof (rnd_mul_strict (B2R x) (B2R f) (fmt_B2R x) (fmt_B2R f) HX HF) as G.
+    destruct (Rlt_bool _ _).
+    + destruct C as (R & Fi & _). rewrite Fx, Ff in Fi. simpl in Fi.
+      rewrite (Bltb_correct _ _ _ _ Fx Fi), R. now apply Rlt_bool_true.
+    + rewrite Sx, Sf in C. simpl in C. apply overflow_is_inf in C. now rewrite C.
+  - destruct x as [s|[|]| |s m e H]; try discriminate; simpl in Sx; subst; simpl in *; try lra.
+    exact LtInf.
+Qed.
+
+Local Close Scope R_scope.
+
+Lemma prim_strict_grow : forall x f, PrimFloat.is_finite x = true ->
+  PrimFloat.leb minnorm x = true -> PrimFloat.ltb PrimFloat.one f = true ->
+  PrimFloat.ltb x (PrimFloat.mul x f) = true.
+Proof.
+  intros x f Fx Hx Hf. rewrite is_finite_equiv in Fx. apply leb_iff in Hx.
+  rewrite ltb_equiv, Prim2B_one in Hf. rewrite ltb_equiv, mul_equiv.
+  now apply Bmult_strict_grow.
+Qed.
+
+(* ---- the ideal sequence stalls only from a subnormal value ------------------------------------- *)
+Section NoStall.
+  Local Notation le x y := (PrimFloat.leb x y = true).
+  Local Notation lt x y := (PrimFloat.ltb x y = true).
+  Let OL := prim_order_laws.
+  Let GL := prim_grow_laws.
+
+  Lemma p_le_lt_trans : forall x y z, le x y -> lt y z -> lt x z.
+  Proof.
+    intros x y z H1 H2.
+    pose proof (ltb_def prim_ops OL x z) as D. simpl in D. rewrite D.
+    pose proof (lt_le prim_ops OL y z H2) as H3. simpl in H3.
+    pose proof (leb_trans prim_ops OL x y z H1 H3) as H4. simpl in H4. rewrite H4. simpl.
+    apply negb_true_iff. destruct (PrimFloat.leb z x) eqn:E; [|reflexivity].
+    pose proof (leb_trans prim_ops OL z x y E H1) as H5. simpl in H5.
+    pose proof (lt_nle prim_ops OL y z H2) as H6. simpl in H6. congruence.
+  Qed.
+
+  Lemma p_lt_fmin : forall a x stop, lt a x -> lt a stop -> lt a (fmin prim_ops x stop).
+  Proof. intros. unfold fmin. simpl. destruct (PrimFloat.leb x stop); assumption. Qed.
+
+  Variables start stop factor : PrimFloat.float.
+  Hypothesis Hvalid : valid prim_ops start stop factor = true.
+  Hypothesis Hf : lt PrimFloat.one factor.
+
+  (* zero, or normal, or already at stop *)
+  Definition safe (a : PrimFloat.float) : Prop :=
+    PrimFloat.eqb a PrimFloat.zero = true \/ le minnorm a \/ PrimFloat.ltb a stop = false.
+
+  Lemma lt_stop_finite : forall a, le PrimFloat.zero a -> lt a stop -> PrimFloat.is_finite a = true.
+  Proof.
+    intros a H0 H. rewrite is_finite_equiv. apply leb_iff in H0. rewrite Prim2B_zero in H0.
+    rewrite ltb_equiv in H. eapply Bltb_left_fin; eauto.
+  Qed.
+
+  Lemma no_stall_from_safe : forall n a, Inv prim_ops stop a -> safe a ->
+    stalls prim_ops stop factor a n = false.
+  Proof.
+    destruct (valid_parts prim_ops start stop factor Hvalid) as (H0s & Hss & H0t & H1f).
+    simpl in H0s, Hss, H0t, H1f.
+    induction n as [|n IH]; intros a Ha Sa; [reflexivity|].
+    cbn [stalls]. simpl fltb.
+    destruct (PrimFloat.ltb a stop) eqn:L; [|reflexivity]. simpl andb.
+    assert (Va : valid prim_ops a stop factor = true).
+    { destruct Ha as [A1 A2]. unfold valid. simpl in *. now rewrite A1, A2, H0t, H1f. }
+    destruct (ideal_next_Inv prim_ops OL GL a stop factor Va a Ha) as [Hi _].
+    assert (G : lt a (ideal_next prim_ops stop factor a) /\ safe (ideal_next prim_ops stop factor a)).
+    { unfold ideal_next. simpl feqb. simpl f0.
+      destruct (PrimFloat.eqb a PrimFloat.zero) eqn:E.
+      - destruct (eqb_0_le prim_ops OL a E) as [Ea0 _]. simpl in Ea0. split.
+        + apply p_le_lt_trans with PrimFloat.zero; auto.
+          apply p_lt_fmin; [reflexivity|assumption].
+        + unfold safe, fmin. simpl. destruct (PrimFloat.leb PrimFloat.one stop) eqn:E1.
+          * right. left. reflexivity.
+          * right. right. pose proof (le_nlt prim_ops OL stop stop) as K. simpl in K. apply K.
+            eapply (leb_num_r prim_ops OL). exact Hss.
+      - destruct Sa as [Sa|[Sa|Sa]]; [congruence| |congruence].
+        destruct Ha as [A1 A2]. simpl in A1, A2.
+        pose proof (prim_strict_grow a factor (lt_stop_finite a A1 L) Sa Hf) as SG. split.
+        + apply p_lt_fmin; assumption.
+        + unfold safe, fmin. simpl. destruct (PrimFloat.leb (PrimFloat.mul a factor) stop) eqn:E1.
+          * right. left. pose proof (leb_trans prim_ops OL minnorm a (PrimFloat.mul a factor) Sa) as T.
+            simpl in T. apply T. pose proof (lt_le prim_ops OL _ _ SG) as T2. exact T2.
+          * right. right. pose proof (le_nlt prim_ops OL stop stop) as K. simpl in K. apply K.
+            eapply (leb_num_r prim_ops OL). exact Hss. }
+    destruct G as [G1 G2]. simpl fltb. rewrite G1. simpl. apply IH; auto.
+  Qed.
+
+  Theorem no_stall_zero_or_normal :
+    PrimFloat.eqb start PrimFloat.zero = true \/ le minnorm start ->
+    forall n, stalls prim_ops stop factor start n = false.
+  Proof.
+    intros H n. apply no_stall_from_safe.
+    - apply (Inv_start prim_ops start stop factor Hvalid).
+    - unfold safe. tauto.
+  Qed.
+End NoStall.
+
+(* the default-count clause, complete for every start that is zero or a normal number:
+   valid parameters, factor > 1, no jitter  =>  for some fuel backoff() returns a list
+   satisfying every clause on the values and ending at stop *)
+Theorem binary64_default_count_normal_start : forall start stop factor j take,
+  let p := mkP ApiList start stop CNone factor j take in
+  must_raise prim_ops p = false -> jitter_off prim_ops j = true ->
+  PrimFloat.ltb PrimFloat.one factor = true ->
+  PrimFloat.eqb start PrimFloat.zero = true \/ PrimFloat.leb minnorm start = true ->
+  exists fuel,
+    let o := run prim_ops p fuel [] in
+    o_end o = EStop /\ values_ok prim_ops p (o_vals o) = true /\
+    last_is prim_ops stop (o_vals o) = true.
+Proof.
+  intros start stop factor j take p M Off Lf Hs.
+  apply binary64_default_count_last_is_stop; auto.
+  destruct (must_raise_false_parts prim_ops p M) as [V _]. cbn [p p_start p_stop p_factor] in V.
+  apply (no_stall_zero_or_normal start stop factor V Lf Hs).
+Qed.
+
+(* hence the guard of the open finding implies a subnormal start *)
+Theorem known_guard_is_subnormal_start : forall p n, spec_known prim_ops p n = true ->
+  PrimFloat.ltb PrimFloat.zero (p_start p) = true /\ PrimFloat.ltb (p_start p) minnorm = true.
+Proof.
+  intros p n H. unfold spec_known in H.
+  apply andb_true_iff in H as [H St]. apply andb_true_iff in H as [H _].
+  apply andb_true_iff in H as [M Lf]. apply negb_true_iff in M.
+  destruct (must_raise_false_parts prim_ops p M) as [V _].
+  destruct (valid_parts prim_ops _ _ _ V) as (H0 & _). simpl in H0, Lf.
+  pose proof prim_order_laws as OL.
+  assert (N0 : PrimFloat.eqb (p_start p) PrimFloat.zero = false).
+  { destruct (PrimFloat.eqb (p_start p) PrimFloat.zero) eqn:E; [|reflexivity].
+    rewrite (no_stall_zero_or_normal _ _ _ V Lf (or_introl E) n) in St. discriminate. }
+  assert (N1 : PrimFloat.leb minnorm (p_start p) = false).
+  { destruct (PrimFloat.leb minnorm (p_start p)) eqn:E; [|reflexivity].
+    rewrite (no_stall_zero_or_normal _ _ _ V Lf (or_intror E) n) in St. discriminate. }
+  split.
+  - apply (neqb_0_lt prim_ops OL); assumption.
+  - pose proof (ltb_negb_leb prim_ops OL (p_start p) minnorm) as K. simpl in K. rewrite K, N1; auto.
+    + eapply (leb_num_r prim_ops OL). exact H0.
+    + reflexivity.
+Qed.
